@@ -42,3 +42,52 @@ PROPS["C10"] = dict(
     assumptions=COMMON_ASSUME + ["z3 4.8.12 does not decide the 64-bit bvurem queries in 60 s; z3 5.1.0 (z3-new) and cvc5 --solve-bv-as-int=sum are used and must agree",
                                  "remote replicas are harness implementations of pb.DataManagerClient (a Go interface) keyed by node id; the local raft group is absent (a locally hosted owner returns RaftNotLoadedOnNodeErr), which is enough to observe which partition was consulted"],
 )
+
+HNSW_ASSUME = COMMON_ASSUME + [
+    "vectors are 1-D grid points (integers 0..15 as float32, exact in IEEE arithmetic); the real portable Manhattan kernel is executed symbolically; Euclidean/cosine kernels are not separately explored (Hnsw only compares distances)",
+    "insert levels are path decisions in {0,1} (RandomLevel is an environment stub); map iteration follows insertion order in the quick tier, rotations+reversals in the thorough tier",
+]
+
+PROPS["C01"] = dict(
+    level="model_checking",
+    technique="bounded symbolic execution of go/ssa (gosmt) + SMT (z3): histories are path decisions, vectors/query are solver variables",
+    explanation="every insert/remove/save+load history up to the bound on a 4-id universe, every k, several index configurations; each result assertion discharged by z3 for all vector values on the path",
+    runs={
+        "quick": [
+            dict(pkg="./index", entry="VerifC01", bounds="ops=5,cfg=0,maxlevel=0", reach=["searched"]),
+            dict(pkg="./index", entry="VerifC01", bounds="ops=4,cfg=0,maxlevel=1", reach=["searched"]),
+            dict(pkg="./index", entry="VerifC01", bounds="ops=4,cfg=2,maxlevel=0", reach=["searched"]),
+            dict(pkg="./index", entry="VerifC01", bounds="ops=4,cfg=1,maxlevel=0,save=1,meta=1", reach=["searched"]),
+        ],
+        "thorough": [
+            dict(pkg="./index", entry="VerifC01", bounds="ops=5,cfg=%d,maxlevel=1" % c, reach=["searched"]) for c in (0, 1, 2, 3, 5)
+        ] + [
+            dict(pkg="./index", entry="VerifC01", bounds="ops=4,cfg=%d,maxlevel=1,maporder=1" % c, reach=["searched"]) for c in (0, 2, 4, 6)
+        ] + [
+            dict(pkg="./index", entry="VerifC01", bounds="ops=5,cfg=1,maxlevel=0,save=1,meta=1", reach=["searched"]),
+        ],
+    },
+    outside="histories longer than the bound; M>2; concurrent histories (C13); update (partition-level, covered by C02/C04 harnesses); dataset-level merge (C09); 2-D vectors",
+    assumptions=HNSW_ASSUME,
+)
+
+PROPS["C02"] = dict(
+    level="model_checking",
+    technique="bounded symbolic execution of go/ssa (gosmt) + SMT (z3) against a sequential reference map kept by the harness",
+    explanation="every sequence of the six partition change kinds (single and batch) up to the bound through the real partition.process on a real Hnsw; outcomes, Get, Len, metadata and BytesSize compared with the reference after every step",
+    runs={
+        "quick": [
+            dict(pkg="./storage", entry="VerifC02", bounds="ops=3,kinds=3,ids=2,metashapes=3,maxlevel=1,cfg=0", reach=["end"]),
+            dict(pkg="./storage", entry="VerifC02", bounds="ops=2,kinds=6,ids=2,metashapes=3,maxlevel=0,cfg=1", reach=["end"]),
+        ],
+        "thorough": [
+            dict(pkg="./storage", entry="VerifC02", bounds="ops=4,kinds=3,ids=2,metashapes=3,maxlevel=1,cfg=0", reach=["end"]),
+            dict(pkg="./storage", entry="VerifC02", bounds="ops=3,kinds=6,ids=2,metashapes=2,maxlevel=0,cfg=1", reach=["end"]),
+            dict(pkg="./storage", entry="VerifC02", bounds="ops=2,kinds=6,ids=3,metashapes=4,maxlevel=1,cfg=2", reach=["end"]),
+            dict(pkg="./storage", entry="VerifC02", bounds="ops=3,kinds=3,ids=3,metashapes=3,maxlevel=1,cfg=3", reach=["end"]),
+        ],
+    },
+    outside="sequences longer than the bound; more than 2 items per batch; levels above 1 (the BytesSize link estimate is then a float expression, only its data part is claimed); the proposer side (C11)",
+    assumptions=HNSW_ASSUME + ["proto.Marshal/Unmarshal are an opaque codec (deep copy of the message): protobuf is assumed to round-trip well-typed messages",
+                               "the outcome is read from a buffered notification channel created by the harness (delivery to a waiting caller is C11)"],
+)
